@@ -587,8 +587,28 @@ Definition git_status (s : state) : list (path * option tentry * option tentry) 
 
 Definition is_file_entry (e : tentry) : bool := match tkind e with Some KF => true | _ => false end.
 
+(* texts dulwich's rename/copy detection would pair up: an added (or changed-to) non-directory entry and a
+   source file (deleted, kind-changed or modified; only modified ones when [modified_only]) with equal text *)
+Definition git_pairs (s : state) (modified_only : bool) : bool :=
+  let rows := git_status s in
+  let adds := flat_map (fun r => match snd (fst r), snd r with
+                                 | None, Some y => if okind_eqb (tkind y) (Some KD) then [] else [tcontent y]
+                                 | Some x, Some y => if okind_eqb (tkind y) (Some KD) || okind_eqb (tkind x) (tkind y)
+                                                     then [] else [tcontent y]
+                                 | _, None => []
+                                 end) rows in
+  let srcs := flat_map (fun r => match snd (fst r) with
+                                 | Some x => if okind_eqb (tkind x) (Some KF) &&
+                                                (negb modified_only ||
+                                                 match snd r with Some y => okind_eqb (tkind y) (Some KF) | None => false end)
+                                             then [tcontent x] else []
+                                 | None => []
+                                 end) rows in
+  existsb (fun c => existsb (list_eqb N.eqb c) srcs) adds.
+
 Definition git_commit (s : state) : result :=
   if g_notadir s then refuse ENotADirectory s else
+  if git_pairs s true then Stuck else    (* candidate finding C09-git-commit-copy *)
   let files := filter (fun e => is_file_entry (snd e)) (map (fun p => (p, view_entry (sdisk s) p)) (sindex s)) in
   let ix := filter (fun p => isfile (sdisk s) p ||
                              (isdir (sdisk s) p && negb (memp p (map fst (gbasis s))))) (sindex s) in
@@ -612,15 +632,12 @@ Definition git_revert_guard (s : state) : bool :=
   let is_d (o : option tentry) := match o with Some e => okind_eqb (tkind e) (Some KD) | None => false end in
   let kind_changed (r : path * option tentry * option tentry) :=
     match snd (fst r), snd r with Some a, Some b => negb (okind_eqb (tkind a) (tkind b)) | _, _ => false end in
-  (* an added (or kind-changed-to) non-directory row and a source file row *)
-  let add_f := existsb (fun r => is_f (snd r) && (match snd (fst r) with None => true | _ => false end || kind_changed r)) rows in
-  let src_f := existsb (fun r => match snd (fst r) with Some e => okind_eqb (tkind e) (Some KF) | None => false end) rows in
   let add_d_like := existsb (fun r =>
         is_d (snd r) && (match snd (fst r) with None => true | _ => false end || kind_changed r) &&
         existsb (fun be => okind_eqb (tkind (snd be)) (Some KD) &&
                            sub_tree_eqb (sub_tree (git_basis_tree s) (fst be)) (sub_tree (git_snapshot s) (fst (fst r))))
                 (git_basis_tree s)) rows in
-  negb (add_f && src_f) && negb add_d_like.
+  negb (git_pairs s false) && negb add_d_like.
 
 Definition git_revert (s : state) : result :=
   if g_notadir s then refuse ENotADirectory s else
